@@ -42,10 +42,10 @@ func init() {
 			return intSlice(reOf(a[0]).FindStringIndex(fr.i.concStr(a[1], "regexp FindStringIndex")))
 		},
 		"(*regexp.Regexp).FindStringSubmatch": func(fr *frame, a []value) value {
-			return strSlice(reOf(a[0]).FindStringSubmatch(fr.i.concStr(a[1], "regexp FindStringSubmatch")))
+			return fr.i.reSubmatch(reOf(a[0]), a[1])
 		},
 		"(*regexp.Regexp).FindStringSubmatchIndex": func(fr *frame, a []value) value {
-			return intSlice(reOf(a[0]).FindStringSubmatchIndex(fr.i.concStr(a[1], "regexp FindStringSubmatchIndex")))
+			return intSlice(fr.i.reSubmatchIndex(reOf(a[0]), a[1]))
 		},
 		"(*regexp.Regexp).FindSubmatch": func(fr *frame, a []value) value {
 			m := reOf(a[0]).FindSubmatch([]byte(fr.i.concStr(mkstr(a[1].([]value)), "regexp FindSubmatch")))
